@@ -21,6 +21,43 @@ CLAIMED = {
              'proposed hold times; BGPTimer itself is verified against the DelayedCall model.',
         note='T1 (DelayedCall/callLater semantics), T4 (H/3 exact rational), configured hold time legal (0 or >=3)',
         ref='5 C03'),
+    'C02': dict(
+        text='Safety half as invariant clauses proved for every entry point: Recover (unless stopped there is always a progress token: '
+             'idle-hold armed or connection closing in Idle; attempt/connect-retry/fresh connection in Connect; live connection with hold '
+             'timer in a session) and NoPoison (the hold time offered on a new connection is the configured one). Progress half: rank/time '
+             'lemmas over the verified handler postconditions under a cooperative peer.',
+        note='T1 (incl. the 30 s connect timeout and eventual connectionLost), cooperative-peer premise for the liveness half, boot: automatic_start is the first event',
+        ref='5 C02'),
+    'C04': dict(
+        text='BGP.parse_buffer is verified against a reference RFC 4271 deframer (FRAME) for every buffer content: incomplete => nothing happens; '
+             'header error => Message Header Error NOTIFICATION with the right subcode, close; complete message => exactly that message is '
+             'dispatched and exactly its octets consumed. dataReceived: loop invariant + variant (terminates, nothing escapes, nothing processed '
+             'after a close). Lemma: FRAME is prefix-stable, from which segmentation independence follows by induction over cut points.',
+        note='T1 (no data after loseConnection), T5 (cut-point induction is a meta-argument; base and step facts are machine-checked)',
+        ref='5 C04'),
+    'C10': dict(
+        text='No exception escapes dataReceived / parse_buffer / the timer callbacks (outcome obligations on every path, with callees '
+             'raising whatever their contracts allow), dataReceived terminates (variant), every dispatch makes at most one application report, '
+             'a malformed UPDATE keeps an Established session up, and Inv (incl. the reconnect token) holds after every input.',
+        note='Update.parse / Open.parse enter through assumed abstract contracts (may raise any Exception, never SystemExit); decoder statelessness is C11/C09 business',
+        ref='5 C10'),
+    'C12': dict(
+        text='Ghost counter of outstanding connectTCP attempts; invariant One (attempts + live tracked connection <= 1), connect() precondition '
+             'proved at its call sites, NoLeak at buildProtocol, idle-no-attempt. Four places where yabgp cannot abort a pending attempt are open known findings.',
+        note='T1; the connector object is never stored by yabgp, so aborting an attempt is impossible: recorded as known findings, not repaired',
+        ref='5 C12'),
+    'C13': dict(
+        text='manual_stop: Cease iff Established, every timer cancelled, connection closed, automatic start disabled, Idle. Invariant Stopped '
+             '(no timer, no live connection, no attempt while stopped) preserved by every entry point; manual_start from Idle connects at once and '
+             're-enables recovery, and changes nothing while a session is up. Stop with an attempt in flight is an open known finding.',
+        note='T1, T2 (REST worker threads treated as atomic events)',
+        ref='5 C13'),
+    'C18': dict(
+        text='Every send/receive function changes the per-type counters by exactly the number of messages of that type it writes / takes from the '
+             'stream with at least the minimum length (update obligations on msg_sent_stat / msg_recv_stat of every function that touches the '
+             'wire). Three deviations are open known findings.',
+        note='T1; Update.construct enters through an assumed abstract contract',
+        ref='5 C18'),
 }
 checks = []
 for pid, c in CLAIMED.items():
@@ -40,7 +77,7 @@ m = {
                  'kind_free_text': 'home-made contract verifier: symbolic execution of the real /repo AST per function against '
                                    'sidecar contracts, obligations discharged by z3 (cvc5 second back end), native replay under /venv/bin/python'}],
     'checks': checks,
-    'notes': 'fix: commits in /repo (see known_findings.jsonl): 392e84f 5c6aba0 af6fcf3 718ac22 a1681d0',
+    'notes': 'fix: commits in /repo (see known_findings.jsonl): 392e84f af6fcf3 5c6aba0 718ac22 a1681d0 ba1e9fe',
     'not_applicable': [{'property_id': p['id'], 'reason': 'check not built yet (build in progress); see DESIGN.md section 5'}
                        for p in props if p['id'] not in CLAIMED],
 }
